@@ -127,8 +127,15 @@ class Model(HoloPyObject):
             if key in fields:
                 kwargs[key] = fields[key]
         model = cls(**kwargs)
+        names = fields['_parameter_names']
+        if (model._parameters != parameters and
+                len(names) == len(parameters) < len(model._parameters)):
+            # ties between parameters that cannot share one prior object
+            # (e.g. a scatterer parameter and alpha) are not recreated by
+            # the constructor; the saved maps describe them
+            model._parameters, model._maps = parameters, maps
         if model._parameters == parameters:
-            model._parameter_names = fields['_parameter_names']
+            model._parameter_names = names
         else:
             msg = ("Detected inconsistencies when reloading Model. "
                    "It may differ from previously saved object")
